@@ -146,6 +146,17 @@ def _gen_zero_mono(ctx):
                     if rng.random() < 0.7:
                         kw["seed"] = rng.choice(SEEDS)
                     yield {"fn": fn, "type": tname, "terms": terms, "kw": kw}
+                    if tname not in MATRIX and tname != "dict" and len(vs) >= 2:
+                        # the same model with a user-chosen enumeration (set_mapping / set_reverse_mapping), started
+                        # from a minimiser: at temperature zero nothing may move
+                        import itertools
+                        dom = (1, -1) if spin else (0, 1)
+                        best = min(({v: x for v, x in zip(vs, xs)} for xs in itertools.product(dom, repeat=len(vs))),
+                                   key=lambda st: peval(terms, st)) if len(vs) <= 6 else None
+                        if best is not None:
+                            kw2 = dict(kw, initial_state=best)
+                            yield {"fn": fn, "type": tname, "terms": terms, "kw": kw2,
+                                   "mapping": ("reversed", "rotated", "rotated_rev_api")[len(vs) % 3]}
 
 
 def _nt_zero(case):
@@ -173,7 +184,17 @@ def check_zero_mono(case):
         return pf
     res = _fn(case)(_build(case), **case["kw"])
     e0 = peval(case["terms"], case["kw"]["initial_state"])
+    init = case["kw"]["initial_state"]
+    spin = SPIN_FN[case["fn"]]
+    def _flipped(v):
+        s2 = dict(init)
+        s2[v] = -init[v] if spin else 1 - init[v]
+        return s2
+    strict_min = all(peval(case["terms"], _flipped(v)) > e0 + 1e-9 for v in init) if isinstance(init, dict) else False
     for r in res:
+        if strict_min and any(r.state.get(v) != init[v] for v in init):
+            return Fail("started at temperature zero from %r, where every single flip raises the energy, but ended in %r"
+                        % (init, r.state), key="moved-from-strict-minimum", observed=r.state, required=init)
         if r.value > e0 + 1e-9 * max(1.0, abs(e0), abs(r.value)):
             return Fail("value %r at zero temperature exceeds the initial state's value %r (final state %r)"
                         % (r.value, e0, r.state), key="uphill-at-zero-T", observed=r.value, required="<= %r" % e0)
@@ -186,13 +207,15 @@ def check_zero_mono(case):
 def _ref_zero_T(terms, n, spin, init, sweeps):
     """Reference procedure of the property text: sweep the variables in label order, flip iff dE < 0.
     Returns None when an exactly-zero energy change is met (the readings dE < 0 / dE <= 0 then differ)."""
+    import fractions
+    exact = {k: fractions.Fraction(v) for k, v in terms.items()}      # dyadic coefficients: exact, at any magnitude
     s = dict(init)
     for _ in range(sweeps):
         for i in range(n):
             s2 = dict(s)
             s2[i] = -s[i] if spin else 1 - s[i]
-            dE = peval(terms, s2) - peval(terms, s)
-            if abs(dE) < 1e-9:
+            dE = peval(exact, s2) - peval(exact, s)
+            if dE == 0:
                 return None
             if dE < 0:
                 s = s2
@@ -232,6 +255,9 @@ def _gen_zero_exact(ctx):
         for _ in range(ctx.pick(150, 3000)):
             n = rng.randint(1, ctx.pick(5, 7))
             models.append(_generic_model(rng, n, min(deg, n), rng.randint(n, 2 * n + 1)))
+        # the same models at other magnitudes (exact: powers of two): energy differences are compared exactly, however
+        # small or large they are
+        models = models + [{k: v * sc for k, v in m.items()} for m in models[:40] for sc in (2.0 ** -40, 2.0 ** 20)]
         for terms in models:
             n = max(variables_of(terms)) + 1
             dom = (1, -1) if spin else (0, 1)
